@@ -51,6 +51,8 @@ def run(db, chk, quad: bool = False) -> None:
         if bad:
             continue
         stats = CMP.check_laws(tab, chk, "C03", where, ref, quad=quad)
+        ts = CMP.check_tree_semantics(tab, chk, "C03.R5-tree-semantics", where, ref, max_events=4 if quad else 3, grid=3)
+        stats["tree_semantics"] = ts
         # mixed time: earlier endpoint first, whatever the rest
         badt = []
         for p in CMP.endpoints(1, t=5):
